@@ -31,10 +31,9 @@ ASSUMPTIONS = ["CPython semantics of bytes.split/strip/startswith/int and of war
 EXHAUSTIVE = {"quick": "all 512 subsets of 9 optional meminfo field groups; all 96 combinations of MemAvailable mode x {Active(file),Inactive(file),SReclaimable,zoneinfo} subsets",
               "thorough": "the same 512 + 96 enumerations, each repeated 6 times under rotating magnitude classes"}
 SHARD = 120
-# model parameter: True = code with notes/fixes/C08-meminfo-legacy-header.diff applied (flip the default when that
-# patch is committed; C08_LENIENT=1 selects it for a run against a patched copy)
-LENIENT = bool(int(os.environ.get("C08_LENIENT", "0")))
-FINDING_JUNK = "meminfo-non-numeric-line"
+# model parameter: True = the code as it is now (commit db3d5fc: meminfo lines that are not "name number" are skipped);
+# False = the parser used before that commit
+LENIENT = True
 
 FIELD_ORDER = ["total", "available", "percent", "used", "free", "active", "inactive", "buffers", "cached", "shared", "slab"]
 SWAP_ORDER = ["total", "used", "free", "percent", "sin", "sout"]
@@ -477,26 +476,6 @@ def _norm(impl_main, side, target, pct_idx, used_total):
     return Val(r)
 
 
-_REG = {}
-
-
-def _finding_registered(key):
-    """is the finding listed in known_findings.json (merged by the coordinator)?  Until then the class is compared
-    with the model only, so that the check never alarms on a finding that has not been triaged yet.
-    C08_ORACLE_ALL=1 forces the property oracle on (to demonstrate the violation)."""
-    if os.environ.get("C08_ORACLE_ALL"):
-        return True
-    if key not in _REG:
-        try:
-            import json
-            here = os.path.dirname(os.path.dirname(os.path.abspath(__file__)))
-            data = json.load(open(os.path.join(here, "known_findings.json")))
-            _REG[key] = any(f.get("property") == ID and f.get("key") == key for f in data.get("findings", []))
-        except Exception:
-            _REG[key] = False
-    return _REG[key]
-
-
 def _ratio_ok(fr, nd):
     """memory_percent(): float vs exact ratio value*100/total (three float operations)"""
     ex = Fraction(nd[0], nd[1])
@@ -530,8 +509,6 @@ def judge(case, coq, impl):
     if case["kind"] == "phymem":
         return _judge_phymem(case, coq, impl)
     main, side = (impl, {}) if isinstance(impl, dict) else impl
-    if coq.get("junk") and not LENIENT and not _finding_registered(FINDING_JUNK):
-        coq = dict(coq, spec=None)      # not triaged yet: model only
     model, spec = coq["model"], coq["spec"]
     vm = case["kind"] in ("vm", "vmraw")
     if vm:
@@ -573,9 +550,7 @@ def judge(case, coq, impl):
 
 
 def finding_key(case, coq):
-    if not LENIENT and case["kind"] in ("vm", "swap") and _has_junk(case["mem"]):
-        return FINDING_JUNK
-    return None
+    return None      # no known (unrepaired) finding class: the oracle applies to every generated case
 
 
 # ------------------------------------------------------------------ implementation side
@@ -724,8 +699,8 @@ MANIFEST = {
             "modelled with Python's typing and IEEE rounding (rnd53) and proved equal to the exact formula for every rounding operator that is exact on representable "
             "numbers, under the stated bound (watermark multiple of 512, sum < 2^61 bytes; witness beyond it). Any zoneinfo content is irrelevant when it is not consulted; "
             "arbitrary bytes give a record or IndexError/ValueError. 0<=available<=total and 0<=percent<=100 whenever free<=total (hypothesis necessary). "
-            "Known finding: every meminfo containing a line that is not 'name number' (the Linux 2.4 header) makes both calls raise (general theorem + witness); the "
-            "repaired lenient parser is proved correct at full strength. swap_memory(), every page size and every vmstat (repeated counters read as a log, extra columns, "
+            "meminfo may contain lines that are not 'name number' (the Linux 2.4 header): skipped (the parser used before commit db3d5fc raised on every such file: "
+            "refuted theorems, fixed finding). swap_memory(), every page size and every vmstat (repeated counters read as a log, extra columns, "
             "value-less lines): total/free from meminfo or sysinfo(2), used, percent (half-even), sin/sout = pages x page size, zeros + warning when vmstat or a counter is "
             "absent (literal-4096 conversion of before fe3ce75 refuted). _TOTAL_PHYMEM: virtual_memory() stores its total, Process.memory_percent() = value*100/cached total, "
             "re-reads only when nothing/0 is cached, ValueError for a non-positive total; history theorem. The model is tied to the code by running the real psutil (public "
